@@ -15,7 +15,7 @@
 
 static const char *const DICT[] = {"ADD", "BRN", "BR", "BRB", "BRZ", "DATA", "FUNC", "LDAC", "LDAI", "LDAM", "LDAP", "LDBC", "LDBI", "LDBM", "OPR", "PROC", "STAI",
                                    "STAM", "SUB", "SVC", "-", "#", "0", "1", "15", "16", "255", "256", "65536", "2147483648", "4294967295", "99999999999999999999",
-                                   "lab", "start", "x", "\n"};
+                                   "lab", "start", "x", "\n", "2147483647", "-2147483648", "-2147483649", "4294967296", "-1", "-16", "-256", "PFIX", "NFIX", "PADDING", "lab\nlab\n", "_", "a_very_long_identifier_a_very_long_identifier_a_very_long_identifier_a_very_long_identifier"};
 static char OUT[64] = "fz.bin";
 
 struct Outcome { bool threw = false; bool isError = false; std::string what; std::string file, listing; bool fileExists = false; };
